@@ -164,3 +164,34 @@ def check_reads(out: Outcome, stream, model, requests, tag: str, limit_fail: int
                 nfail += 1
         if nfail >= limit_fail:
             break
+
+
+TRACKED: list = []  # (BytesIO, original bytes): caller-supplied in-memory handles whose content must never change (C09)
+GRAVEYARD: list = []  # handles that still have buffer exports when released: kept alive for the life of the process
+
+
+def track(data: bytes):
+    """io.BytesIO(data), registered so that (a) C09 can verify that the library never changes its content and (b) it is only
+    released once no buffer export is left (deallocating a BytesIO with live exports crashes the interpreter)."""
+    import io
+
+    bio = io.BytesIO(data)
+    TRACKED.append((bio, data))
+    return bio
+
+
+def release_tracked() -> bool:
+    """Verify and release all tracked handles.  Returns True if any handle's content was changed."""
+    changed = False
+    for bio, orig in TRACKED:
+        try:
+            if bio.getvalue() != orig:
+                changed = True
+        except ValueError:
+            pass  # closed by the library / harness: content can no longer be inspected
+        try:
+            bio.close()
+        except BufferError:
+            GRAVEYARD.append(bio)
+    TRACKED.clear()
+    return changed
